@@ -1,6 +1,6 @@
 (** C06 — Type tag and visitation agree with serialization. *)
 From Coq Require Import List NArith ZArith Bool.
-From BL Require Import Base.Bytes Mser.Types Mser.Encode Mser.Tag Mser.Visit Mser.TagProofs Mser.VisitProofs Gen.SrcFacts.
+From BL Require Import Base.Bytes Mser.Types Mser.Encode Mser.Tag Mser.Visit Mser.TagProofs Mser.EnumProofs Mser.VisitProofs Gen.SrcFacts.
 Import ListNotations.
 Local Open Scope N_scope.
 
@@ -24,15 +24,28 @@ Print Assumptions C06_tag_pop_concat.
 
 (** visiting the serialized bytes with the type's tag reports exactly the value (sequence lengths, member names,
     selected alternative or null, every leaf with its kind and value) and consumes exactly its bytes.
-    PARTIAL: proved for [simple] types (no adapted enums, no empty structs, monostate only as a variant alternative),
+    PARTIAL: proved for [simple] types (arithmetic, adapted enums over integral types - the enumerator is found by the same text search the code
+    does -, sequences, tuples, optionals, variants, non-empty structs; no empty structs, no enums over bool, monostate only as a variant alternative),
     values whose sequences have at most 32 elements (the repeat collapsing is not involved) and nesting up to the
-    documented limit 2048. Enums, empty structs, longer sequences and hand-written recursive tags are tied by the
+    documented limit 2048. Empty structs, longer sequences and hand-written recursive tags are tied by the
     correspondence runs (callback-by-callback against the real mserialize::visit) only. *)
 Theorem C06_visit_agrees_partial : forall v t rest, wt t v = true -> simple false t = true -> ty_ok t = true ->
   short v = true -> (depth t <= 2048)%nat ->
   visit false no_special 2048 (tag t) (tag t) (enc t v ++ rest) = VOk (callbacks t v, rest).
 Proof. exact visit_agrees_2048. Qed.
 Print Assumptions C06_visit_agrees_partial.
+
+(** the same for a visitor that takes whole strings and for any printStruct hook that leaves the type's struct names alone (what ToStringVisitor is) *)
+Theorem C06_visit_agrees_any_visitor : forall full b sp v t inv, wt t v = true -> simple inv t = true -> t <> TUnit -> ty_ok t = true -> short v = true -> plain sp t ->
+  forall fuel rest, (depth t <= fuel)%nat -> visit b sp fuel full (tag t) (Encode.spec_enc t v ++ rest) = VOk (callbacks_b b t v, rest).
+Proof. exact visit_agrees_gen. Qed.
+Print Assumptions C06_visit_agrees_any_visitor.
+
+(** the enumerator reported for an adapted enum is the first one whose VALUE is the value visited (the hex text determines the value) *)
+Theorem C06_enumerator_is_found_by_value : forall a es x, (x < 256 ^ N.of_nat (awidth a))%N -> Forall (fun e => (fst e < 256 ^ N.of_nat (awidth a))%N) es ->
+  lookup a es (hex_Z (raw_to_Z a x)) = first_with_value es x.
+Proof. exact lookup_by_value. Qed.
+Print Assumptions C06_enumerator_is_found_by_value.
 
 Example C06_nonvacuous :
   let t := TStruct [83] [([97], TSeq (mkSK true None) (TArith AI16)); ([98], TOpt (TVariant [TUnit; TTuple [TArith ABool; TArith AU8]]))] in
